@@ -292,8 +292,27 @@ def _check_traits(chk, tier, seed, props):
         if 'C15' in props:
             _check_delegator(chk, F, t)
     chk.floor('XPAND', 'generated trait methods analysed', nm, 150 if tier == 'quick' else 600, config='xpand')
+    if 'C16' in props:
+        _check_scoped_unmock(chk, F)
     for t in sc['traits'][:2]:
         chk.sample({'trait': t['name'], 'api': t['api'], 'methods': [m['sig'] for m in t['methods']]})
+
+
+def _check_scoped_unmock(chk, F):
+    """R16.9: the function named in unmock_with is resolved where the attribute is written: for a trait declared inside a function body
+    next to its real function, the Unmock arm calls that function - not a module-level function of the same name"""
+    fns = [f for f in F.fns.values() if f.kind == 'assoc' and f.name == 'm0' and re.search(r'scoped::scope::.*Scoped$', (f.impl_of or {}).get('trait') or '') and 'Unimock' in (f.impl_of or {}).get('self_ty', '')]
+    chk.floor('R16.9', 'block-scoped trait with an unmock function in the harness', len(fns), 1, config='xpand')
+    for f in fns:
+        callees = []
+        for b in [f] + F.closures_of(f):
+            for bb, t in b.calls():
+                n = symex.callee_name(t)
+                if n.endswith('real_scoped'):
+                    callees.append(symex.callee_def(t))
+        ok = bool(callees) and all(re.search(r'scoped::scope::real_scoped', c) for c in callees)
+        chk.ob('R16.9', 'a path in unmock_with resolves in the scope the attribute is written in (block-local function, not its module-level namesake)', ok, config='xpand', fn=f, site='scoped-unmock',
+               what='Unmock arm of a block-scoped trait calls %s' % callees, found=callees, expected='scoped::scope::real_scoped')
 
 
 def _split_top(s):
